@@ -137,6 +137,8 @@ structure BInv (b : BState) : Prop where
   wuSweeper : b.wuOwner = some .sweeper ↔ (∃ n sh r i wk, b.sw = .store n sh r i wk)
   wuClients : ∀ i, b.wuOwner ≠ some (.client i) ∧ b.wuOwner ≠ some .consumer
   ttlSweeper : (b.ttlOwner = none ↔ (b.sw = .begin ∨ b.sw = .fin)) ∧ (∀ sh, b.ttlOwner = some sh → b.sw.shard? = some sh)
+  /-- at `sweep.entry` there is an entry left to visit (else the sweeper would hold the shard lock for ever) -/
+  sweepEntry : ∀ now sh rest, b.sw = .entry now sh rest → rest ≠ []
   cmdsPositive : (∀ p ∈ b.g.queue, cmdPos p.1) ∧ (∀ (i : Nat) (pc : CPc), b.cl[i]? = some pc → pc.pos) ∧
     (∀ c, b.w.cmd? = some c → 0 < c.w) ∧ (∀ id w h, b.w = .update id w h → 0 < w)
   /-- fresh ids are pairwise distinct, below `nextId`, not charged before `kw.insert`, and nobody holds
@@ -434,7 +436,7 @@ inductive STrans (b : BState) : BState → Prop where
       STrans b (sweepNext { b with ttlOwner := some (secsOf b.g.now % b.g.cfg.shards) } b.g.now (secsOf b.g.now % b.g.cfg.shards) ((b.g.ttl.filter (fun p => p.1.1 == secsOf b.g.now % b.g.cfg.shards)).map (fun p => (p.1.2, p.2))))
   | entryExpired (now shard rest id p) : rest.find? (fun p => p.1 == id) = some p → b.sw = .entry now shard rest →
       STrans b { b with g := { b.g with ttl := b.g.ttl.del (shard, id) }, sw := .kwRemove now shard (rest.filter (fun p => p.1 != id)) id }
-  | entryKeep (now shard rest id) : b.sw = .entry now shard rest →
+  | entryKeep (now shard rest id p) : rest.find? (fun p => p.1 == id) = some p → b.sw = .entry now shard rest →
       STrans b (sweepNext b now shard (rest.filter (fun p => p.1 != id)))
   | kwRemoveSome (now shard rest id wk) : b.g.adm.kw.get? id = some wk → b.sw = .kwRemove now shard rest id →
       STrans b { b with g := { b.g with adm := { b.g.adm with kw := b.g.adm.kw.del id } }, sw := .sub now shard rest id wk }
@@ -465,7 +467,7 @@ theorem sweeperAct_trans {b b' : BState} {v : Option Nat} (h : sweeperAct b v = 
       · split at h
         all_goals simp only [Except.ok.injEq] at h; subst h
         · exact .entryExpired now shard rest _ _ (by assumption) hs
-        · exact .entryKeep now shard rest _ hs
+        · exact .entryKeep now shard rest _ _ (by assumption) hs
   | kwRemove now shard rest id =>
     simp only [sweeperAct, hs] at h
     split at h
@@ -666,6 +668,1086 @@ theorem clientAct_trans {b b' : BState} {i : Nat} {o o' : Oracle} (h : clientAct
         simp only [Bool.not_eq_true, Bool.not_eq_false'] at ha
         simp only [Except.ok.injEq, Prod.mk.injEq] at h; obtain ⟨rfl, rfl⟩ := h
         exact .upAfterPut _ _ _ _ hpc rfl ha
+
+/-! ## 3  frame facts -/
+
+@[simp] theorem applyEvict_adm (g : State) (e : Evicted) : (applyEvict g e).adm = g.adm := by
+  obtain ⟨i, k, w⟩ := e; simp only [applyEvict]; split <;> rfl
+@[simp] theorem applyEvict_cfg (g : State) (e : Evicted) : (applyEvict g e).cfg = g.cfg := by
+  obtain ⟨i, k, w⟩ := e; simp only [applyEvict]; split <;> rfl
+@[simp] theorem applyEvict_queue (g : State) (e : Evicted) : (applyEvict g e).queue = g.queue := by
+  obtain ⟨i, k, w⟩ := e; simp only [applyEvict]; split <;> rfl
+@[simp] theorem applyEvict_nextId (g : State) (e : Evicted) : (applyEvict g e).nextId = g.nextId := by
+  obtain ⟨i, k, w⟩ := e; simp only [applyEvict]; split <;> rfl
+@[simp] theorem applyEvict_ttl (g : State) (e : Evicted) : (applyEvict g e).ttl = g.ttl := by
+  obtain ⟨i, k, w⟩ := e; simp only [applyEvict]; split <;> rfl
+@[simp] theorem applyEvict_now (g : State) (e : Evicted) : (applyEvict g e).now = g.now := by
+  obtain ⟨i, k, w⟩ := e; simp only [applyEvict]; split <;> rfl
+theorem applyEvict_store (g : State) (e : Evicted) : (applyEvict g e).store = g.store.del e.2.1 := by
+  obtain ⟨i, k, w⟩ := e
+  simp only [applyEvict]
+  split
+  · rfl
+  · rename_i h
+    have h' : g.store.get? k = none := by simpa [AMap.contains] using h
+    simp [AMap.del_of_get?_none h']
+
+/-- `Pool::add` touches the pool, the buffer queue and the statistics only. -/
+theorem poolAdd_frame {g g1 : State} {h : Nat} {o o' : Oracle} (hp : poolAdd g h o = .ok (g1, o')) :
+    g1 = { g with pool := g1.pool, bufq := g1.bufq, stats := g1.stats } := by
+  unfold poolAdd at hp
+  split at hp
+  · cases hp
+  · split at hp
+    · cases hp
+    · simp only [] at hp
+      split at hp
+      · simp only [Except.ok.injEq, Prod.mk.injEq] at hp
+        obtain ⟨rfl, _⟩ := hp
+        unfold acceptBuffer
+        split <;> rfl
+      · simp only [Except.ok.injEq, Prod.mk.injEq] at hp
+        obtain ⟨rfl, _⟩ := hp
+        rfl
+
+/-- The access consumer touches the buffer queue, the sketch and its own liveness flag only. -/
+theorem consumerStep_frame {g g1 : State} {o o' : Oracle} {out : Out} (hc : consumerStep g o = .ok (g1, out, o')) :
+    g1 = { g with bufq := g1.bufq, lfu := g1.lfu, consumerAlive := g1.consumerAlive } := by
+  unfold consumerStep at hc
+  split at hc
+  · cases hc
+  · split at hc
+    · cases hc
+    · simp only [Except.ok.injEq, Prod.mk.injEq] at hc
+      obtain ⟨rfl, _⟩ := hc
+      rfl
+    · split at hc
+      · cases hc
+      · split at hc
+        all_goals simp only [Except.ok.injEq, Prod.mk.injEq] at hc
+        all_goals obtain ⟨rfl, _⟩ := hc
+        all_goals rfl
+
+/-! ## 4  the locks -/
+
+def WPc.isEvStore : WPc → Bool
+  | .evStore _ _ _ _ _ => true
+  | _ => false
+
+def SPc.isStore : SPc → Bool
+  | .store _ _ _ _ _ => true
+  | _ => false
+
+/-- who owns `weight_used` across a schedule point, as a function of where worker and sweeper stand -/
+def lockOf (w : WPc) (sw : SPc) : Option Tid :=
+  if w.isEvStore then some .worker else if sw.isStore then some .sweeper else none
+
+/-- the sweeper never stands at `sweep.entry` with nothing left to visit -/
+def SPc.entryOk : SPc → Prop
+  | .entry _ _ rest => rest ≠ []
+  | _ => True
+
+/-- the lock part of the invariant, in functional form -/
+structure LockF (b : BState) : Prop where
+  wu : b.wuOwner = lockOf b.w b.sw
+  ttl : b.ttlOwner = b.sw.shard?
+  excl : b.w.isEvStore = true → b.sw.isStore = false
+  entry : b.sw.entryOk
+
+theorem lockF_wtrans {b b' : BState} (hi : LockF b) (h : WTrans b b') : LockF b' := by
+  obtain ⟨h1, h2, h3, h4⟩ := hi
+  cases h
+  all_goals constructor
+  all_goals simp [finishCmd, rejectCmd, wuFree, lockOf, WPc.isEvStore, *] at *
+  all_goals assumption
+
+theorem lockF_strans {b b' : BState} (hi : LockF b) (h : STrans b b') : LockF b' := by
+  obtain ⟨h1, h2, h3, h4⟩ := hi
+  cases h
+  all_goals (try unfold sweepNext)
+  all_goals (try split)
+  all_goals constructor
+  all_goals simp [wuFree, lockOf, SPc.isStore, SPc.shard?, SPc.entryOk, *] at *
+  all_goals assumption
+
+/-- a client action moves that client and touches neither the other threads' positions, the locks,
+    the admission part nor the configuration -/
+theorem ctrans_frame {b b' : BState} {i : Nat} (h : CTrans b i b') :
+    b'.w = b.w ∧ b'.sw = b.sw ∧ b'.wuOwner = b.wuOwner ∧ b'.ttlOwner = b.ttlOwner ∧ b'.g.adm = b.g.adm ∧
+    b'.g.cfg = b.g.cfg := by
+  cases h
+  case getPool hp => rw [poolAdd_frame hp]; simp [finishCall]
+  case upAfterSame => rcases upAfterIndex_spec b i _ _ with ⟨_, h⟩ | ⟨_, _, h⟩ | h <;> rw [h] <;> simp [finishCall, setClient, spotFinish]
+  case upAfterPut id e uw _ _ _ =>
+    rcases upAfterIndex_spec { b with g := ttlPut b.g id e } i id uw with ⟨_, h⟩ | ⟨_, _, h⟩ | h <;> rw [h] <;>
+      simp [finishCall, setClient, spotFinish, ttlPut]
+  case upAfterDelete id e uw _ _ =>
+    rcases upAfterIndex_spec { b with g := ttlDelete b.g id e } i id uw with ⟨_, h⟩ | ⟨_, _, h⟩ | h <;> rw [h] <;>
+      simp [finishCall, setClient, spotFinish, ttlDelete]
+  all_goals simp [finishCall, setClient, spotFinish, ttlDelete]
+
+theorem LockF.frame {b b' : BState} (hi : LockF b) (h1 : b'.w = b.w) (h2 : b'.sw = b.sw)
+    (h3 : b'.wuOwner = b.wuOwner) (h4 : b'.ttlOwner = b.ttlOwner) : LockF b' := by
+  obtain ⟨a1, a2, a3, a4⟩ := hi
+  exact ⟨by rw [h1, h2, h3, a1], by rw [h2, h4, a2], by rw [h1, h2]; exact a3, by rw [h2]; exact a4⟩
+
+theorem lockF_init (cfg : Cfg) (now : Nat) (seeds : List Nat) (clients : Nat) :
+    LockF (BState.init cfg now seeds clients) := ⟨rfl, rfl, fun h => (by cases h), trivial⟩
+
+/-- the lock conjuncts of `BInv`, from the functional form -/
+theorem LockF.wuWorker {b : BState} (h : LockF b) :
+    b.wuOwner = some .worker ↔ (∃ c e s i wk, b.w = .evStore c e s i wk) := by
+  rw [h.wu]
+  cases hw : b.w <;> cases hs : b.sw <;> simp [lockOf, WPc.isEvStore, SPc.isStore]
+
+theorem LockF.wuSweeper {b : BState} (h : LockF b) :
+    b.wuOwner = some .sweeper ↔ (∃ n sh r i wk, b.sw = .store n sh r i wk) := by
+  have := h.excl
+  rw [h.wu]
+  cases hw : b.w <;> cases hs : b.sw <;> simp_all [lockOf, WPc.isEvStore, SPc.isStore]
+
+theorem LockF.wuClients {b : BState} (h : LockF b) (i : Nat) :
+    b.wuOwner ≠ some (.client i) ∧ b.wuOwner ≠ some .consumer := by
+  rw [h.wu]
+  unfold lockOf
+  constructor <;> split <;> (try split) <;> simp
+
+theorem LockF.ttlSweeper {b : BState} (h : LockF b) :
+    (b.ttlOwner = none ↔ (b.sw = .begin ∨ b.sw = .fin)) ∧ (∀ sh, b.ttlOwner = some sh → b.sw.shard? = some sh) := by
+  rw [h.ttl]
+  cases hs : b.sw <;> simp [SPc.shard?]
+
+theorem LockF.sweepEntry {b : BState} (h : LockF b) (now sh : Nat) (rest : List (Nat × Nat))
+    (hs : b.sw = .entry now sh rest) : rest ≠ [] := by
+  have := h.entry
+  rw [hs] at this
+  exact this
+
+theorem LockF.of {b : BState} (h1 : b.wuOwner = some .worker ↔ (∃ c e s i wk, b.w = .evStore c e s i wk))
+    (h2 : b.wuOwner = some .sweeper ↔ (∃ n sh r i wk, b.sw = .store n sh r i wk))
+    (h3 : ∀ i, b.wuOwner ≠ some (.client i) ∧ b.wuOwner ≠ some .consumer)
+    (h4 : (b.ttlOwner = none ↔ (b.sw = .begin ∨ b.sw = .fin)) ∧ (∀ sh, b.ttlOwner = some sh → b.sw.shard? = some sh))
+    (h5 : ∀ now sh rest, b.sw = .entry now sh rest → rest ≠ []) :
+    LockF b := by
+  have e1 : (∃ c e s i wk, b.w = .evStore c e s i wk) ↔ b.w.isEvStore = true := by
+    cases b.w <;> simp [WPc.isEvStore]
+  have e2 : (∃ n sh r i wk, b.sw = .store n sh r i wk) ↔ b.sw.isStore = true := by
+    cases b.sw <;> simp [SPc.isStore]
+  rw [e1] at h1
+  rw [e2] at h2
+  refine ⟨?_, ?_, ?_, ?_⟩
+  rotate_left 3
+  · cases hs : b.sw <;> simp only [SPc.entryOk]
+    exact h5 _ _ _ hs
+  · unfold lockOf
+    cases ho : b.wuOwner with
+    | none => simp_all
+    | some t =>
+      cases t with
+      | worker => simp_all
+      | sweeper =>
+        have : b.w.isEvStore = false := by
+          cases hb : b.w.isEvStore
+          · rfl
+          · rw [h1.mpr hb] at ho; cases ho
+        simp_all
+      | consumer => exact absurd ho (h3 0).2
+      | client i => exact absurd ho (h3 i).1
+  · cases ho : b.ttlOwner with
+    | none =>
+      rcases h4.1.mp ho with h | h <;> simp [h, SPc.shard?]
+    | some sh => exact (h4.2 sh ho).symm
+  · intro hw
+    cases hb : b.sw.isStore
+    · rfl
+    · have := h1.mpr hw
+      rw [h2.mpr hb] at this
+      cases this
+
+/-! ## 5  positive weights on the way to the worker -/
+
+def WPc.updW? : WPc → Option Int
+  | .update _ w _ => some w
+  | _ => none
+
+structure PosInv (b : BState) : Prop where
+  queue : ∀ p ∈ b.g.queue, cmdPos p.1
+  clients : ∀ (i : Nat) (pc : CPc), b.cl[i]? = some pc → pc.pos
+  wcmd : ∀ c, b.w.cmd? = some c → 0 < c.w
+  wupd : ∀ w, b.w.updW? = some w → 0 < w
+
+@[simp] theorem cmdPos_cmdOfPut (c : PutCmd) : cmdPos (cmdOfPut c) ↔ 0 < c.w := by
+  unfold cmdOfPut; split <;> simp [cmdPos]
+
+@[simp] theorem cmdId?_cmdOfPut (c : PutCmd) : cmdId? (cmdOfPut c) = some c.id := by
+  unfold cmdOfPut; split <;> simp [cmdId?]
+
+@[simp] theorem cmdPos_update (id : Nat) (w : Int) : cmdPos (.updateWeight id w) ↔ 0 < w := Iff.rfl
+@[simp] theorem cmdPos_delete (k : Nat) : cmdPos (.delete k) := trivial
+@[simp] theorem cmdPos_shutdown : cmdPos .shutdown := trivial
+
+theorem posInv_wtrans {b b' : BState} (hi : PosInv b) (h : WTrans b b') : PosInv b' := by
+  obtain ⟨h1, h2, h3, h4⟩ := hi
+  cases h
+  all_goals constructor
+  all_goals (try simp only [finishCmd, rejectCmd, ttlPut, ttlDelete])
+  all_goals (try assumption)
+  all_goals simp_all [WPc.cmd?, WPc.updW?]
+  all_goals first | exact h1 | exact h1.2
+
+theorem getElem?_set_pos {cl : List CPc} {i : Nat} {pc' : CPc}
+    (h : ∀ (j : Nat) (pc : CPc), cl[j]? = some pc → pc.pos) (h' : pc'.pos) :
+    ∀ (j : Nat) (pc : CPc), (cl.set i pc')[j]? = some pc → pc.pos := by
+  intro j pc hj
+  rw [List.getElem?_set] at hj
+  split at hj
+  · split at hj
+    · cases hj; exact h'
+    · cases hj
+  · exact h j pc hj
+
+theorem posInv_strans {b b' : BState} (hi : PosInv b) (h : STrans b b') : PosInv b' := by
+  obtain ⟨h1, h2, h3, h4⟩ := hi
+  cases h
+  all_goals (try unfold sweepNext)
+  all_goals (try split)
+  all_goals exact ⟨by simpa using h1, h2, h3, h4⟩
+
+/-- a client action that leaves the queue alone and moves client `i` to a position carrying a positive weight -/
+theorem PosInv.client {b b' : BState} {i : Nat} {pc' : CPc} (hi : PosInv b) (hq : b'.g.queue = b.g.queue)
+    (hw : b'.w = b.w) (hcl : b'.cl = b.cl.set i pc') (hp : pc'.pos) : PosInv b' := by
+  obtain ⟨h1, h2, h3, h4⟩ := hi
+  exact ⟨by rw [hq]; exact h1, by rw [hcl]; exact getElem?_set_pos h2 hp, by rw [hw]; exact h3, by rw [hw]; exact h4⟩
+
+theorem PosInv.upAfter {b b0 : BState} {i id : Nat} {uw : Option Int} (hi : PosInv b) (hq : b0.g.queue = b.g.queue)
+    (hw : b0.w = b.w) (hcl : b0.cl = b.cl) : PosInv (upAfterIndex b0 i id uw) := by
+  rcases upAfterIndex_spec b0 i id uw with ⟨_, h⟩ | ⟨w, hw', h⟩ | h <;> rw [h]
+  · exact hi.client (i := i) (pc' := .idle) hq hw (by simp [finishCall, hcl]) trivial
+  · exact hi.client (i := i) (pc' := .send (.updateWeight id w)) hq hw (by simp [setClient, hcl]) hw'
+  · exact hi.client (i := i) (pc' := .idle) hq hw (by simp [spotFinish, finishCall, hcl]) trivial
+
+theorem posInv_ctrans {b b' : BState} {i : Nat} (hi : PosInv b) (h : CTrans b i b') : PosInv b' := by
+  cases h with
+  | finish pc out hpc => exact hi.client rfl rfl rfl trivial
+  | finishStats pc out st hpc => exact hi.client rfl rfl rfl trivial
+  | spot pc st hpc => exact hi.client rfl rfl rfl trivial
+  | startPut k v w ttl hpc hw => exact hi.client rfl rfl rfl hw
+  | startPlain r pc' hpc hp => exact hi.client rfl rfl rfl (by cases pc' <;> first | trivial | cases hp)
+  | putPresentOk k v w ttl hpc => exact hi.client rfl rfl rfl (hi.clients i (.putPresent k v w ttl) hpc)
+  | idNext k v w ttl hpc =>
+    have := hi.clients i (.idNext k v w ttl) hpc
+    exact hi.client rfl rfl rfl (by cases ttl <;> exact this)
+  | sendOk cmd hpc =>
+    have := hi.clients i _ hpc
+    obtain ⟨h1, h2, h3, h4⟩ := hi
+    refine ⟨?_, getElem?_set_pos h2 trivial, h3, h4⟩
+    intro p hp
+    simp only [finishCall, List.mem_append, List.mem_singleton] at hp
+    rcases hp with hp | rfl
+    · exact h1 p hp
+    · exact this
+  | delMark k hpc => exact hi.client rfl rfl rfl trivial
+  | getHit k e hpc _ _ => exact hi.client rfl rfl rfl trivial
+  | getPool k v g1 o o' hpc hp =>
+    refine hi.client ?_ rfl rfl trivial
+    rw [poolAdd_frame hp]; rfl
+  | upPut k v w ttl rm val weight hpc hw => exact hi.client rfl rfl rfl hw
+  | upUpdate k v w ttl rm e ne uw hpc _ => exact hi.client rfl rfl rfl trivial
+  | upWeightOfTtl id uw old new pc' hpc _ _ hp => exact hi.client rfl rfl rfl hp
+  | upAfterSame id uw old new hpc => exact hi.upAfter rfl rfl rfl
+  | upAfterPut pc id e uw hpc _ _ => exact hi.upAfter rfl rfl rfl
+  | upAfterDelete id e uw hpc _ => exact hi.upAfter rfl rfl rfl
+  | upTtlRemove id old new uw hpc _ => exact hi.client rfl rfl rfl trivial
+
+theorem PosInv.frame {b b' : BState} (hi : PosInv b) (hq : b'.g.queue = b.g.queue) (hw : b'.w = b.w)
+    (hcl : b'.cl = b.cl) : PosInv b' := by
+  obtain ⟨h1, h2, h3, h4⟩ := hi
+  exact ⟨by rw [hq]; exact h1, by rw [hcl]; exact h2, by rw [hw]; exact h3, by rw [hw]; exact h4⟩
+
+theorem posInv_issue {b b' : BState} {i : Nat} {r : Req} (hi : PosInv b) (h : issue b i r = .ok b') : PosInv b' := by
+  unfold issue at h
+  split at h
+  · simp only [Except.ok.injEq] at h; subst h
+    exact hi.client rfl rfl rfl trivial
+  · cases h
+
+theorem posInv_init (cfg : Cfg) (now : Nat) (seeds : List Nat) (clients : Nat) :
+    PosInv (BState.init cfg now seeds clients) := by
+  refine ⟨by simp [BState.init, State.init], ?_, by simp [BState.init, WPc.cmd?], by simp [BState.init, WPc.updW?]⟩
+  intro i pc h
+  simp only [BState.init, List.getElem?_replicate] at h
+  split at h
+  · cases h; trivial
+  · cases h
+
+/-! ## 6  fresh ids -/
+
+theorem count_filterMap_set {α : Type} (g : α → Option Nat) (l : List α) (i : Nat) (old new : α)
+    (h : l[i]? = some old) (f : Nat) :
+    ((l.set i new).filterMap g).count f + (g old).toList.count f =
+      (l.filterMap g).count f + (g new).toList.count f := by
+  induction l generalizing i with
+  | nil => simp at h
+  | cons x xs ih =>
+    cases i with
+    | zero =>
+      simp only [List.getElem?_cons_zero, Option.some.injEq] at h
+      subst h
+      simp only [List.set_cons_zero, List.filterMap_cons]
+      cases g x <;> cases g new <;> simp [List.count_cons] <;> omega
+    | succ i =>
+      simp only [List.getElem?_cons_succ] at h
+      have := ih i h
+      simp only [List.set_cons_succ, List.filterMap_cons]
+      cases g x <;> simp [List.count_cons] <;> omega
+
+theorem mem_filterMap_set {α : Type} (g : α → Option Nat) (l : List α) (i : Nat) (new : α) (x : Nat)
+    (h : x ∈ (l.set i new).filterMap g) : x ∈ l.filterMap g ∨ g new = some x := by
+  rw [List.mem_filterMap] at h
+  obtain ⟨a, ha, hg⟩ := h
+  rcases List.mem_or_eq_of_mem_set ha with h | rfl
+  · exact Or.inl (List.mem_filterMap.mpr ⟨a, h, hg⟩)
+  · exact Or.inr hg
+
+theorem AMap.mem_del' {α β : Type} [DecidableEq α] {m : AMap α β} {a : α} {p : α × β} (h : p ∈ AMap.del m a) : p ∈ m := by
+  induction m with
+  | nil => simp [AMap.del] at h
+  | cons q rest ih =>
+    obtain ⟨k, v⟩ := q
+    by_cases hk : k = a
+    · simp only [AMap.del, hk, if_true] at h
+      exact List.mem_cons_of_mem _ (ih h)
+    · simp only [AMap.del, hk, if_false, List.mem_cons] at h
+      rcases h with h | h
+      · subst h; simp
+      · exact List.mem_cons_of_mem _ (ih h)
+
+/-- occurrences among the queued and the about-to-be-sent commands -/
+def qc (b : BState) (f : Nat) : Nat := (qIds b.g.queue).count f + (cIds b.cl).count f
+
+theorem occ_eq (b : BState) (f : Nat) : occ b f = qc b f + b.w.freshId?.toList.count f := rfl
+
+@[simp] theorem qIds_nil : qIds [] = [] := rfl
+theorem qIds_cons (cmd : Cmd) (h : Option Nat) (q : List (Cmd × Option Nat)) :
+    qIds ((cmd, h) :: q) = (cmdId? cmd).toList ++ qIds q := by
+  simp only [qIds, List.filterMap_cons]
+  cases cmdId? cmd <;> simp
+theorem qIds_append (q q' : List (Cmd × Option Nat)) : qIds (q ++ q') = qIds q ++ qIds q' := by
+  simp [qIds, List.filterMap_append]
+
+/-- the id part of the invariant -/
+structure IdInv (b : BState) : Prop where
+  occLe : ∀ f, occ b f ≤ 1
+  freshLt : ∀ f, 0 < occ b f → f < b.g.nextId
+  pendQC : ∀ f, 0 < qc b f → b.g.adm.kw.get? f = none
+  pendW : ∀ f, b.w.pendId? = some f → b.g.adm.kw.get? f = none
+  used : ∀ u ∈ usedIds b, occ b u = 0 ∧ u < b.g.nextId
+  kwLt : ∀ id wk, b.g.adm.kw.get? id = some wk → id < b.g.nextId
+  addCharged : ∀ c, b.w = .add c → b.g.adm.kw.get? c.id = some { key := c.k, hash := c.hash, weight := c.w }
+
+/-- Every action that creates no fresh id and only removes charges preserves `IdInv`. -/
+theorem IdInv.transfer {b b' : BState} (hi : IdInv b)
+    (hocc : ∀ f, occ b' f ≤ occ b f) (hqc : ∀ f, qc b' f ≤ qc b f) (hn : b.g.nextId ≤ b'.g.nextId)
+    (hkw : ∀ f wk, b'.g.adm.kw.get? f = some wk → b.g.adm.kw.get? f = some wk)
+    (hpend : ∀ f, b'.w.pendId? = some f → b.w.pendId? = some f ∨ 0 < qc b f)
+    (hused : ∀ u ∈ usedIds b', u ∈ usedIds b ∨ (occ b' u = 0 ∧ 0 < occ b u))
+    (hadd : ∀ c, b'.w = .add c → b.w = .add c ∧ b'.g.adm.kw.get? c.id = b.g.adm.kw.get? c.id) : IdInv b' := by
+  have hnone : ∀ f, b.g.adm.kw.get? f = none → b'.g.adm.kw.get? f = none := by
+    intro f hf
+    cases h : b'.g.adm.kw.get? f with
+    | none => rfl
+    | some wk => rw [hkw f wk h] at hf; cases hf
+  refine ⟨?_, ?_, ?_, ?_, ?_, ?_, ?_⟩
+  · intro f; exact Nat.le_trans (hocc f) (hi.occLe f)
+  · intro f hf
+    exact Nat.lt_of_lt_of_le (hi.freshLt f (Nat.lt_of_lt_of_le hf (hocc f))) hn
+  · intro f hf
+    exact hnone f (hi.pendQC f (Nat.lt_of_lt_of_le hf (hqc f)))
+  · intro f hf
+    rcases hpend f hf with h | h
+    · exact hnone f (hi.pendW f h)
+    · exact hnone f (hi.pendQC f h)
+  · intro u hu
+    rcases hused u hu with h | ⟨h1, h2⟩
+    · have := hi.used u h
+      have := hocc u
+      exact ⟨by omega, by omega⟩
+    · have := hi.freshLt u h2
+      exact ⟨h1, by omega⟩
+  · intro id wk h
+    have := hi.kwLt id wk (hkw id wk h)
+    omega
+  · intro c hc
+    obtain ⟨h1, h2⟩ := hadd c hc
+    rw [h2]; exact hi.addCharged c h1
+
+theorem wtrans_occ {b b' : BState} (h : WTrans b b') (f : Nat) : occ b' f ≤ occ b f := by
+  cases h
+  all_goals simp [occ, finishCmd, rejectCmd, WPc.freshId?, qIds_cons, ttlPut, ttlDelete, List.count_cons, *]
+  all_goals (split <;> omega)
+
+theorem wtrans_qc {b b' : BState} (h : WTrans b b') (f : Nat) : qc b' f ≤ qc b f := by
+  cases h
+  all_goals simp [qc, finishCmd, rejectCmd, qIds_cons, ttlPut, ttlDelete, List.count_cons, *]
+
+theorem wtrans_nextId {b b' : BState} (h : WTrans b b') : b'.g.nextId = b.g.nextId := by
+  cases h <;> simp [finishCmd, rejectCmd, ttlPut, ttlDelete]
+
+theorem wtrans_cfg {b b' : BState} (h : WTrans b b') : b'.g.cfg = b.g.cfg := by
+  cases h <;> simp [finishCmd, rejectCmd, ttlPut, ttlDelete]
+
+theorem wtrans_max {b b' : BState} (h : WTrans b b') : b'.g.adm.max = b.g.adm.max := by
+  cases h <;> simp [finishCmd, rejectCmd, ttlPut, ttlDelete]
+
+/-- the worker never creates a pending id: a put that is pending after the action was pending or queued before -/
+theorem wtrans_pend {b b' : BState} (h : WTrans b b') (f : Nat) (hf : b'.w.pendId? = some f) :
+    b.w.pendId? = some f ∨ 0 < qc b f := by
+  cases h
+  all_goals simp [qc, finishCmd, rejectCmd, WPc.pendId?, qIds_cons, List.count_cons, *] at *
+  all_goals (try subst hf)
+  all_goals first | omega | (simp; try omega)
+
+/-- apart from `kw.insert` and `kw.update` the worker only removes charges -/
+theorem wtrans_kw {b b' : BState} (h : WTrans b b') (h1 : ∀ c, b.w ≠ .insert c)
+    (h2 : ∀ id w hh, b.w = .update id w hh → b'.g.adm.kw = b.g.adm.kw)
+    (f : Nat) (wk : WKey) (hf : b'.g.adm.kw.get? f = some wk) : b.g.adm.kw.get? f = some wk := by
+  cases h
+  case insert c hw => exact absurd hw (h1 c)
+  case updateApplied id w hh wk' hw _ _ => rw [h2 id w hh hw] at hf; exact hf
+  case evRemoveSome | delKwSome =>
+    simp only [AMap.get?_del] at hf
+    split at hf
+    · cases hf
+    · exact hf
+  all_goals simpa [finishCmd, rejectCmd, ttlPut, ttlDelete] using hf
+
+theorem wtrans_add {b b' : BState} (h : WTrans b b') (c : PutCmd) (hc : b'.w = .add c) :
+    b.w = .insert c ∧ b'.g.adm.kw = b.g.adm.kw.set c.id { key := c.k, hash := c.hash, weight := c.w } := by
+  cases h
+  all_goals simp [finishCmd, rejectCmd] at hc
+  subst hc
+  exact ⟨by assumption, rfl⟩
+
+theorem mem_usedIds {b : BState} {u : Nat} : u ∈ usedIds b ↔
+    (∃ p ∈ b.g.store, p.2.id = u) ∨ (∃ p ∈ b.g.ttl, p.1.2 = u) ∨ u ∈ b.sw.ids ∨
+    (∃ pc ∈ b.cl, pc.usedId? = some u) ∨ b.w.usedId? = some u := by
+  simp only [usedIds, List.mem_append, List.mem_map, List.mem_filterMap, Option.mem_toList, or_assoc]
+
+/-- the only id the worker makes "used" is the id of the put it is storing -/
+theorem wtrans_used {b b' : BState} (h : WTrans b b') (u : Nat) (hu : u ∈ usedIds b') :
+    u ∈ usedIds b ∨ ∃ c, b.w = .storePut c ∧ u = c.id := by
+  rw [mem_usedIds] at hu ⊢
+  cases h
+  all_goals simp [finishCmd, rejectCmd, WPc.usedId?, ttlPut, ttlDelete, applyEvict_store, *] at *
+  all_goals (try assumption)
+  all_goals grind [AMap.mem_del', AMap.set]
+
+/-- `store.put` uses up the fresh id of the worker's put -/
+theorem wtrans_storePut_occ {b b' : BState} (h : WTrans b b') (c : PutCmd) (hw : b.w = .storePut c) :
+    occ b' c.id + 1 ≤ occ b c.id := by
+  cases h
+  all_goals simp [occ, finishCmd, WPc.freshId?, *] at *
+
+theorem idInv_wtrans {b b' : BState} (hi : IdInv b) (h : WTrans b b') : IdInv b' := by
+  have h0 := h
+  cases h with
+  | insert c hw =>
+    have hocc : ∀ f, occ { b with g := { b.g with adm := { b.g.adm with kw := b.g.adm.kw.set c.id { key := c.k, hash := c.hash, weight := c.w } } }, w := .add c } f = occ b f := by
+      intro f; simp [occ, WPc.freshId?, hw]
+    have hc1 : 0 < occ b c.id := by simp [occ, WPc.freshId?, hw]
+    have hqc0 : qc b c.id = 0 := by
+      have := hi.occLe c.id
+      simp [occ_eq, WPc.freshId?, hw] at this
+      exact this
+    refine ⟨?_, ?_, ?_, ?_, ?_, ?_, ?_⟩
+    · intro f; rw [hocc]; exact hi.occLe f
+    · intro f hf; rw [hocc] at hf; exact hi.freshLt f hf
+    · intro f hf
+      have hf' : 0 < qc b f := hf
+      have hne : c.id ≠ f := by intro e; subst e; omega
+      show (b.g.adm.kw.set c.id _).get? f = none
+      rw [AMap.get?_set_other _ _ hne]
+      exact hi.pendQC f hf'
+    · intro f hf; simp [WPc.pendId?] at hf
+    · intro u hu
+      have hu' : u ∈ usedIds b := by
+        rw [mem_usedIds] at hu ⊢
+        simpa [WPc.usedId?, hw] using hu
+      rw [hocc]; exact hi.used u hu'
+    · intro id wk hg
+      have hg' : (b.g.adm.kw.set c.id _).get? id = some wk := hg
+      rw [AMap.get?_set] at hg'
+      split at hg'
+      · rename_i e; subst e; exact hi.freshLt _ hc1
+      · exact hi.kwLt id wk hg'
+    · intro c' hc'
+      simp only [WPc.add.injEq] at hc'
+      subst hc'
+      show (b.g.adm.kw.set c.id _).get? c.id = _
+      rw [AMap.get?_set_same]
+  | updateApplied id w hh wk hw hfree hg =>
+    have hocc : ∀ f, occ (finishCmd { b with g := { b.g with adm := { b.g.adm with used := b.g.adm.used + (w - wk.weight), kw := b.g.adm.kw.set id { wk with weight := w } }, stats := updateWeightStats { b.g.stats with keysUpdated := b.g.stats.keysUpdated + 1 } w wk.weight } } hh .accepted) f = occ b f := by
+      intro f; simp [occ, finishCmd, WPc.freshId?, hw]
+    refine ⟨?_, ?_, ?_, ?_, ?_, ?_, ?_⟩
+    · intro f; rw [hocc]; exact hi.occLe f
+    · intro f hf; rw [hocc] at hf; exact hi.freshLt f hf
+    · intro f hf
+      have hf' : 0 < qc b f := hf
+      have hnone := hi.pendQC f hf'
+      have hne : id ≠ f := by intro e; subst e; rw [hg] at hnone; cases hnone
+      show (b.g.adm.kw.set id _).get? f = none
+      rw [AMap.get?_set_other _ _ hne]
+      exact hnone
+    · intro f hf; simp [finishCmd, WPc.pendId?] at hf
+    · intro u hu
+      have hu' : u ∈ usedIds b := by
+        rw [mem_usedIds] at hu ⊢
+        simpa [finishCmd, WPc.usedId?, hw] using hu
+      rw [hocc]; exact hi.used u hu'
+    · intro id' wk' hg'
+      have hg'' : (b.g.adm.kw.set id _).get? id' = some wk' := hg'
+      rw [AMap.get?_set] at hg''
+      split at hg''
+      · rename_i e; subst e; exact hi.kwLt _ _ hg
+      · exact hi.kwLt id' wk' hg''
+    · intro c' hc'; simp [finishCmd] at hc'
+  | _ =>
+    refine hi.transfer (wtrans_occ h0) (wtrans_qc h0) (by rw [wtrans_nextId h0]; exact Nat.le_refl _)
+      (wtrans_kw h0 (by simp [*]) (by simp [finishCmd, *])) (wtrans_pend h0) ?_ ?_
+    · intro u hu
+      rcases wtrans_used h0 u hu with h | ⟨c, hw, rfl⟩
+      · exact Or.inl h
+      · have h1 := wtrans_storePut_occ h0 c hw
+        have h2 := hi.occLe c.id
+        exact Or.inr ⟨by omega, by omega⟩
+    · intro c hc
+      have := (wtrans_add h0 c hc).1
+      simp_all
+
+theorem occ_congr {b b' : BState} (hq : b'.g.queue = b.g.queue) (hcl : b'.cl = b.cl) (hw : b'.w = b.w) (f : Nat) :
+    occ b' f = occ b f := by
+  simp [occ, hq, hcl, hw]
+
+theorem qc_congr {b b' : BState} (hq : b'.g.queue = b.g.queue) (hcl : b'.cl = b.cl) (f : Nat) :
+    qc b' f = qc b f := by
+  simp [qc, hq, hcl]
+
+/-- the sweeper leaves the worker, the clients, the queue, the id counter and the configuration alone -/
+theorem strans_frame {b b' : BState} (h : STrans b b') :
+    b'.w = b.w ∧ b'.cl = b.cl ∧ b'.g.queue = b.g.queue ∧ b'.g.nextId = b.g.nextId ∧ b'.g.cfg = b.g.cfg ∧
+    b'.g.adm.max = b.g.adm.max := by
+  cases h
+  all_goals (try unfold sweepNext)
+  all_goals (try split)
+  all_goals simp
+
+theorem strans_kw {b b' : BState} (h : STrans b b') (f : Nat) (wk : WKey) (hf : b'.g.adm.kw.get? f = some wk) :
+    b.g.adm.kw.get? f = some wk := by
+  cases h
+  case kwRemoveSome =>
+    simp only [AMap.get?_del] at hf
+    split at hf
+    · cases hf
+    · exact hf
+  all_goals (try unfold sweepNext at hf)
+  all_goals (try split at hf)
+  all_goals simpa using hf
+
+/-- the sweeper reaches into `kw` through used ids only -/
+theorem strans_kw_other {b b' : BState} (h : STrans b b') (f : Nat) (hf : f ∉ usedIds b) :
+    b'.g.adm.kw.get? f = b.g.adm.kw.get? f := by
+  cases h
+  case kwRemoveSome now shard rest id wk hg hs =>
+    have : id ≠ f := by
+      intro e; subst e
+      apply hf
+      rw [mem_usedIds]
+      simp [hs, SPc.ids]
+    simp [AMap.get?_del_other _ this]
+  all_goals (try unfold sweepNext)
+  all_goals (try split)
+  all_goals simp
+
+theorem strans_used {b b' : BState} (h : STrans b b') (u : Nat) (hu : u ∈ usedIds b') : u ∈ usedIds b := by
+  rw [mem_usedIds] at hu ⊢
+  cases h
+  all_goals (try unfold sweepNext at hu)
+  all_goals (try split at hu)
+  all_goals simp [SPc.ids, applyEvict_store, *] at *
+  all_goals (try assumption)
+  case entryExpired now shard rest id p hfind hs =>
+    have h1 := List.mem_of_find?_eq_some hfind
+    have h2 : p.1 = id := by simpa using List.find?_some hfind
+    grind [AMap.mem_del']
+  all_goals grind [AMap.mem_del']
+
+theorem idInv_strans {b b' : BState} (hi : IdInv b) (h : STrans b b') : IdInv b' := by
+  obtain ⟨hw, hcl, hq, hn, _, _⟩ := strans_frame h
+  refine hi.transfer (fun f => Nat.le_of_eq (occ_congr hq hcl hw f)) (fun f => Nat.le_of_eq (qc_congr hq hcl f))
+    (Nat.le_of_eq hn.symm) (strans_kw h) (fun f hf => Or.inl (hw ▸ hf)) (fun u hu => Or.inl (strans_used h u hu)) ?_
+  intro c hc
+  rw [hw] at hc
+  refine ⟨hc, strans_kw_other h c.id ?_⟩
+  intro hu
+  have := (hi.used c.id hu).1
+  simp [occ, hc, WPc.freshId?] at this
+
+/-! clients -/
+
+theorem mem_usedIds_client {b b' : BState} {i : Nat} {pc' : CPc} (hsw : b'.sw = b.sw) (hw : b'.w = b.w)
+    (hcl : b'.cl = b.cl.set i pc') (hs : ∀ p ∈ b'.g.store, ∃ q ∈ b.g.store, q.2.id = p.2.id)
+    (ht : ∀ p ∈ b'.g.ttl, p ∈ b.g.ttl ∨ p.1.2 ∈ usedIds b) (hpc : ∀ u, pc'.usedId? = some u → u ∈ usedIds b)
+    (u : Nat) (hu : u ∈ usedIds b') : u ∈ usedIds b := by
+  rw [mem_usedIds] at hu
+  rcases hu with ⟨p, hp, rfl⟩ | ⟨p, hp, rfl⟩ | hu | ⟨pc, hp, hpu⟩ | hu
+  · obtain ⟨q, hq, he⟩ := hs p hp
+    rw [mem_usedIds]; exact Or.inl ⟨q, hq, he⟩
+  · rcases ht p hp with h | h
+    · rw [mem_usedIds]; exact Or.inr (Or.inl ⟨p, h, rfl⟩)
+    · exact h
+  · rw [mem_usedIds]; rw [hsw] at hu; exact Or.inr (Or.inr (Or.inl hu))
+  · rw [hcl] at hp
+    rcases List.mem_or_eq_of_mem_set hp with h | rfl
+    · rw [mem_usedIds]; exact Or.inr (Or.inr (Or.inr (Or.inl ⟨pc, h, hpu⟩)))
+    · exact hpc u hpu
+  · rw [mem_usedIds]; rw [hw] at hu; exact Or.inr (Or.inr (Or.inr (Or.inr hu)))
+
+theorem mem_usedIds_of_client {b : BState} {i : Nat} {pc : CPc} {u : Nat} (hpc : b.cl[i]? = some pc)
+    (hu : pc.usedId? = some u) : u ∈ usedIds b := by
+  rw [mem_usedIds]
+  exact Or.inr (Or.inr (Or.inr (Or.inl ⟨pc, List.mem_of_getElem? hpc, hu⟩)))
+
+/-- a client action that creates no fresh id, leaves queue, id counter and charges alone, and keeps the used ids -/
+theorem IdInv.clientStep {b b' : BState} {i : Nat} {pc pc' : CPc} (hi : IdInv b) (hpc : b.cl[i]? = some pc)
+    (hq : b'.g.queue = b.g.queue) (hn : b'.g.nextId = b.g.nextId) (hkw : b'.g.adm.kw = b.g.adm.kw)
+    (hw : b'.w = b.w) (hcl : b'.cl = b.cl.set i pc') (hfresh : pc'.freshId? = none)
+    (hused : ∀ u ∈ usedIds b', u ∈ usedIds b) : IdInv b' := by
+  have hc : ∀ f, (cIds b'.cl).count f ≤ (cIds b.cl).count f := by
+    intro f
+    have := count_filterMap_set CPc.freshId? b.cl i pc pc' hpc f
+    rw [hfresh] at this
+    simp only [cIds, hcl]
+    simp at this
+    omega
+  refine hi.transfer ?_ ?_ (Nat.le_of_eq hn.symm) (by rw [hkw]; exact fun _ _ h => h) (fun f hf => Or.inl (hw ▸ hf))
+    (fun u hu => Or.inl (hused u hu)) (fun c hc => ⟨hw ▸ hc, by rw [hkw]⟩)
+  · intro f; have := hc f; simp only [occ, hq, hw]; omega
+  · intro f; have := hc f; simp only [qc, hq]; omega
+
+/-- … and that moreover leaves store, expiry index and sweeper alone -/
+theorem IdInv.clientLocal {b b' : BState} {i : Nat} {pc pc' : CPc} (hi : IdInv b) (hpc : b.cl[i]? = some pc)
+    (hq : b'.g.queue = b.g.queue) (hn : b'.g.nextId = b.g.nextId) (hkw : b'.g.adm.kw = b.g.adm.kw)
+    (hw : b'.w = b.w) (hcl : b'.cl = b.cl.set i pc') (hsw : b'.sw = b.sw) (hst : b'.g.store = b.g.store)
+    (httl : b'.g.ttl = b.g.ttl) (hfresh : pc'.freshId? = none) (hu : ∀ u, pc'.usedId? = some u → u ∈ usedIds b) :
+    IdInv b' :=
+  hi.clientStep hpc hq hn hkw hw hcl hfresh
+    (mem_usedIds_client hsw hw hcl (by rw [hst]; exact fun p hp => ⟨p, hp, rfl⟩) (by rw [httl]; exact fun p hp => Or.inl hp) hu)
+
+theorem IdInv.upAfter {b b0 : BState} {i id : Nat} {uw : Option Int} {pc : CPc} (hi : IdInv b)
+    (hpc : b.cl[i]? = some pc) (hq : b0.g.queue = b.g.queue) (hn : b0.g.nextId = b.g.nextId)
+    (hkw : b0.g.adm.kw = b.g.adm.kw) (hw : b0.w = b.w) (hcl : b0.cl = b.cl) (hsw : b0.sw = b.sw)
+    (hst : b0.g.store = b.g.store) (httl : ∀ p ∈ b0.g.ttl, p ∈ b.g.ttl ∨ p.1.2 ∈ usedIds b) :
+    IdInv (upAfterIndex b0 i id uw) := by
+  have hs : ∀ p ∈ b0.g.store, ∃ q ∈ b.g.store, q.2.id = p.2.id := by rw [hst]; exact fun p hp => ⟨p, hp, rfl⟩
+  rcases upAfterIndex_spec b0 i id uw with ⟨_, h⟩ | ⟨w, _, h⟩ | h <;> rw [h]
+  · exact hi.clientStep (i := i) (pc' := .idle) hpc hq hn hkw hw (by simp [finishCall, hcl]) rfl
+      (mem_usedIds_client (i := i) (pc' := .idle) hsw hw (by simp [finishCall, hcl]) hs httl (fun u h => by cases h))
+  · exact hi.clientStep (i := i) (pc' := .send (.updateWeight id w)) hpc hq hn hkw hw (by simp [setClient, hcl]) rfl
+      (mem_usedIds_client (i := i) (pc' := .send (.updateWeight id w)) hsw hw (by simp [setClient, hcl]) hs httl (fun u h => by cases h))
+  · exact hi.clientStep (i := i) (pc' := .idle) hpc hq hn hkw hw (by simp [spotFinish, finishCall, hcl]) rfl
+      (mem_usedIds_client (i := i) (pc' := .idle) hsw hw (by simp [spotFinish, finishCall, hcl]) hs httl (fun u h => by cases h))
+
+theorem AMap.mem_set' {α β : Type} [DecidableEq α] {m : AMap α β} {a : α} {v : β} {p : α × β}
+    (h : p ∈ AMap.set m a v) : p = (a, v) ∨ p ∈ m := by
+  simp only [AMap.set, List.mem_cons] at h
+  rcases h with h | h
+  · exact Or.inl h
+  · exact Or.inr (AMap.mem_del' h)
+
+/-- `id.next`: the one action that creates a fresh id -/
+theorem idInv_idNext {b : BState} {i k v : Nat} {w : Int} {ttl : Option Nat} (hi : IdInv b)
+    (hpc : b.cl[i]? = some (.idNext k v w ttl)) (cmd : Cmd) (hid : cmdId? cmd = some b.g.nextId) :
+    IdInv (setClient { b with g := { b.g with nextId := b.g.nextId + 1 } } i (.send cmd)) := by
+  have hc : ∀ f, (cIds (b.cl.set i (.send cmd))).count f = (cIds b.cl).count f + [b.g.nextId].count f := by
+    intro f
+    have := count_filterMap_set CPc.freshId? b.cl i _ (.send cmd) hpc f
+    simp only [CPc.freshId?, hid, Option.toList_some, Option.toList_none, List.count_nil] at this
+    simp only [cIds]; omega
+  have hocc : ∀ f, occ (setClient { b with g := { b.g with nextId := b.g.nextId + 1 } } i (.send cmd)) f
+      = occ b f + [b.g.nextId].count f := by
+    intro f; have := hc f; simp only [occ, setClient]; omega
+  have hqc : ∀ f, qc (setClient { b with g := { b.g with nextId := b.g.nextId + 1 } } i (.send cmd)) f
+      = qc b f + [b.g.nextId].count f := by
+    intro f; have := hc f; simp only [qc, setClient]; omega
+  have hnew : occ b b.g.nextId = 0 := by
+    cases h : occ b b.g.nextId with
+    | zero => rfl
+    | succ n => have := hi.freshLt b.g.nextId (by omega); omega
+  have hcnt : ∀ f, [b.g.nextId].count f = if b.g.nextId = f then 1 else 0 := by
+    intro f; simp [List.count_cons]
+  have hused : ∀ u ∈ usedIds (setClient { b with g := { b.g with nextId := b.g.nextId + 1 } } i (.send cmd)), u ∈ usedIds b :=
+    mem_usedIds_client rfl rfl rfl (fun p hp => ⟨p, hp, rfl⟩) (fun p hp => Or.inl hp) (fun u h => by cases h)
+  refine ⟨?_, ?_, ?_, ?_, ?_, ?_, ?_⟩
+  · intro f
+    rw [hocc, hcnt]
+    split
+    · rename_i e; subst e; omega
+    · have := hi.occLe f; omega
+  · intro f hf
+    rw [hocc, hcnt] at hf
+    show f < b.g.nextId + 1
+    split at hf
+    · rename_i e; subst e; omega
+    · have := hi.freshLt f (by omega); omega
+  · intro f hf
+    rw [hqc, hcnt] at hf
+    show b.g.adm.kw.get? f = none
+    split at hf
+    · rename_i e; subst e
+      cases hg : b.g.adm.kw.get? b.g.nextId with
+      | none => rfl
+      | some wk => have := hi.kwLt _ _ hg; omega
+    · exact hi.pendQC f (by omega)
+  · exact hi.pendW
+  · intro u hu
+    have := hi.used u (hused u hu)
+    rw [hocc, hcnt]
+    show _ ∧ u < b.g.nextId + 1
+    split
+    · rename_i e; subst e; omega
+    · omega
+  · intro id wk hg
+    have := hi.kwLt id wk hg
+    show id < b.g.nextId + 1
+    omega
+  · exact hi.addCharged
+
+/-- `cmd.send`: the command moves from the client to the queue -/
+theorem idInv_sendOk {b : BState} {i : Nat} {cmd : Cmd} (hi : IdInv b) (hpc : b.cl[i]? = some (.send cmd)) :
+    IdInv (finishCall { b with g := { b.g with queue := b.g.queue ++ [(cmd, some b.g.acks.length)], acks := b.g.acks ++ [.pending] } } i (.ack b.g.acks.length .pending)) := by
+  have hc : ∀ f, (cIds (b.cl.set i .idle)).count f + (cmdId? cmd).toList.count f = (cIds b.cl).count f := by
+    intro f
+    have := count_filterMap_set CPc.freshId? b.cl i _ .idle hpc f
+    simp only [CPc.freshId?, Option.toList_none, List.count_nil] at this
+    simp only [cIds]; omega
+  have hq : ∀ f, (qIds (b.g.queue ++ [(cmd, some b.g.acks.length)])).count f
+      = (qIds b.g.queue).count f + (cmdId? cmd).toList.count f := by
+    intro f; simp [qIds_append, qIds_cons, List.count_append]
+  refine hi.transfer ?_ ?_ (Nat.le_refl _) (fun _ _ h => h) (fun f hf => Or.inl hf) ?_ (fun c hc => ⟨hc, rfl⟩)
+  · intro f; have := hc f; have := hq f; simp only [occ, finishCall]; omega
+  · intro f; have := hc f; have := hq f; simp only [qc, finishCall]; omega
+  · intro u hu
+    refine Or.inl (mem_usedIds_client (b := b) (i := i) (pc' := .idle) ?_ ?_ ?_ ?_ ?_ ?_ u hu)
+    · rfl
+    · rfl
+    · rfl
+    · exact fun p hp => ⟨p, hp, rfl⟩
+    · exact fun p hp => Or.inl hp
+    · exact fun u h => by cases h
+
+theorem idInv_ctrans {b b' : BState} {i : Nat} (hi : IdInv b) (h : CTrans b i b') : IdInv b' := by
+  cases h with
+  | finish pc out hpc => exact hi.clientLocal hpc rfl rfl rfl rfl rfl rfl rfl rfl rfl (fun u h => by cases h)
+  | finishStats pc out st hpc => exact hi.clientLocal hpc rfl rfl rfl rfl rfl rfl rfl rfl rfl (fun u h => by cases h)
+  | spot pc st hpc => exact hi.clientLocal hpc rfl rfl rfl rfl rfl rfl rfl rfl rfl (fun u h => by cases h)
+  | startPut k v w ttl hpc hw => exact hi.clientLocal hpc rfl rfl rfl rfl rfl rfl rfl rfl rfl (fun u h => by cases h)
+  | startPlain r pc' hpc hp =>
+    exact hi.clientLocal hpc rfl rfl rfl rfl rfl rfl rfl rfl (by cases pc' <;> first | rfl | cases hp)
+      (fun u h => by cases pc' <;> simp [CPc.plain, CPc.usedId?] at hp h)
+  | putPresentOk k v w ttl hpc => exact hi.clientLocal hpc rfl rfl rfl rfl rfl rfl rfl rfl rfl (fun u h => by cases h)
+  | idNext k v w ttl hpc => exact idInv_idNext hi hpc _ (by cases ttl <;> rfl)
+  | sendOk cmd hpc => exact idInv_sendOk hi hpc
+  | delMark k hpc =>
+    refine hi.clientStep hpc rfl rfl rfl rfl rfl rfl
+      (mem_usedIds_client rfl rfl rfl ?_ (fun p hp => Or.inl hp) (fun u h => by cases h))
+    intro p hp
+    simp only [setClient] at hp
+    split at hp
+    · rename_i e he
+      rcases AMap.mem_set' hp with rfl | hp
+      · exact ⟨(k, e), AMap.mem_of_get? he, rfl⟩
+      · exact ⟨p, hp, rfl⟩
+    · exact ⟨p, hp, rfl⟩
+  | getHit k e hpc _ _ => exact hi.clientLocal hpc rfl rfl rfl rfl rfl rfl rfl rfl rfl (fun u h => by cases h)
+  | getPool k v g1 o o' hpc hp =>
+    have hf := poolAdd_frame hp
+    exact hi.clientLocal (pc' := .idle) hpc (by rw [hf]; rfl) (by rw [hf]; rfl) (by rw [hf]; rfl) rfl rfl rfl
+      (by rw [hf]; rfl) (by rw [hf]; rfl) rfl (fun u h => by cases h)
+  | upPut k v w ttl rm val weight hpc hw =>
+    exact hi.clientLocal hpc rfl rfl rfl rfl rfl rfl rfl rfl rfl (fun u h => by cases h)
+  | upUpdate k v w ttl rm e ne uw hpc he =>
+    refine hi.clientStep hpc rfl rfl rfl rfl rfl rfl
+      (mem_usedIds_client rfl rfl rfl ?_ (fun p hp => Or.inl hp) ?_)
+    · intro p hp
+      rcases AMap.mem_set' hp with rfl | hp
+      · exact ⟨(k, e), AMap.mem_of_get? he, rfl⟩
+      · exact ⟨p, hp, rfl⟩
+    · intro u hu
+      simp only [CPc.usedId?, Option.some.injEq] at hu
+      subst hu
+      rw [mem_usedIds]
+      exact Or.inl ⟨(k, e), AMap.mem_of_get? he, rfl⟩
+  | upWeightOfTtl id uw old new pc' hpc hu hf hp =>
+    refine hi.clientLocal hpc rfl rfl rfl rfl rfl rfl rfl rfl hf ?_
+    intro u hu'
+    rw [hu] at hu'
+    cases hu'
+    exact mem_usedIds_of_client hpc rfl
+  | upAfterSame id uw old new hpc => exact hi.upAfter hpc rfl rfl rfl rfl rfl rfl rfl (fun p hp => Or.inl hp)
+  | upAfterPut pc id e uw hpc hu _ =>
+    refine hi.upAfter hpc rfl rfl rfl rfl rfl rfl rfl ?_
+    intro p hp
+    rcases AMap.mem_set' hp with rfl | hp
+    · exact Or.inr (mem_usedIds_of_client hpc hu)
+    · exact Or.inl hp
+  | upAfterDelete id e uw hpc _ =>
+    exact hi.upAfter hpc rfl rfl rfl rfl rfl rfl rfl (fun p hp => Or.inl (AMap.mem_del' hp))
+  | upTtlRemove id old new uw hpc _ =>
+    refine hi.clientStep hpc rfl rfl rfl rfl rfl rfl
+      (mem_usedIds_client rfl rfl rfl (fun p hp => ⟨p, hp, rfl⟩) (fun p hp => Or.inl (AMap.mem_del' hp)) ?_)
+    intro u hu
+    simp only [CPc.usedId?, Option.some.injEq] at hu
+    subst hu
+    exact mem_usedIds_of_client hpc rfl
+
+theorem IdInv.frame {b b' : BState} (hi : IdInv b) (hq : b'.g.queue = b.g.queue) (hcl : b'.cl = b.cl)
+    (hw : b'.w = b.w) (hsw : b'.sw = b.sw) (hn : b'.g.nextId = b.g.nextId) (hkw : b'.g.adm.kw = b.g.adm.kw)
+    (hst : b'.g.store = b.g.store) (httl : b'.g.ttl = b.g.ttl) : IdInv b' := by
+  have hu : usedIds b' = usedIds b := by simp [usedIds, hcl, hw, hsw, hst, httl]
+  refine hi.transfer (fun f => Nat.le_of_eq (occ_congr hq hcl hw f)) (fun f => Nat.le_of_eq (qc_congr hq hcl f))
+    (Nat.le_of_eq hn.symm) (by rw [hkw]; exact fun _ _ h => h) (fun f hf => Or.inl (hw ▸ hf))
+    (fun u h => Or.inl (hu ▸ h)) (fun c hc => ⟨hw ▸ hc, by rw [hkw]⟩)
+
+theorem idInv_issue {b b' : BState} {i : Nat} {r : Req} (hi : IdInv b) (h : issue b i r = .ok b') : IdInv b' := by
+  unfold issue at h
+  split at h
+  · rename_i hpc
+    simp only [Except.ok.injEq] at h; subst h
+    exact hi.clientLocal hpc rfl rfl rfl rfl rfl rfl rfl rfl rfl (fun u h => by cases h)
+  · cases h
+
+theorem idInv_init (cfg : Cfg) (now : Nat) (seeds : List Nat) (clients : Nat) :
+    IdInv (BState.init cfg now seeds clients) := by
+  have hc : cIds (List.replicate clients CPc.idle) = [] := by
+    simp only [cIds, List.filterMap_eq_nil_iff]
+    intro a ha
+    rw [List.eq_of_mem_replicate ha]; rfl
+  have hu : (List.replicate clients CPc.idle).filterMap CPc.usedId? = [] := by
+    simp only [List.filterMap_eq_nil_iff]
+    intro a ha
+    rw [List.eq_of_mem_replicate ha]; rfl
+  have hocc : ∀ f, occ (BState.init cfg now seeds clients) f = 0 := by
+    intro f; simp [occ, BState.init, State.init, hc, WPc.freshId?]
+  refine ⟨?_, ?_, ?_, ?_, ?_, ?_, ?_⟩
+  · intro f; rw [hocc]; omega
+  · intro f hf; rw [hocc] at hf; omega
+  · intro f hf; rfl
+  · intro f hf; rfl
+  · intro u hu'
+    simp [usedIds, BState.init, State.init, hu, SPc.ids, WPc.usedId?] at hu'
+  · intro id wk h; simp [BState.init, State.init] at h
+  · intro c h; simp [BState.init] at h
+
+/-! ## 7  the accounting identity -/
+
+structure SumInv (b : BState) : Prop where
+  kwNoDup : AMap.NoDup b.g.adm.kw
+  positive : ∀ id wk, b.g.adm.kw.get? id = some wk → 0 < wk.weight
+  sum : b.g.adm.used = sumW b.g.adm.kw - pendingAdd b + pendingSub b
+  wvictim : ∀ wk, b.w.victim? = some wk → 0 < wk.weight
+  svictim : ∀ wk, b.sw.victim? = some wk → 0 < wk.weight
+  stale : ∀ space, b.w.space? = some space → space ≤ b.g.adm.max - b.g.adm.used
+
+theorem positive_del {kw : AMap Nat WKey} (h : ∀ id wk, kw.get? id = some wk → 0 < wk.weight) (x : Nat) :
+    ∀ id wk, (kw.del x).get? id = some wk → 0 < wk.weight := by
+  intro id wk hg
+  rw [AMap.get?_del] at hg
+  split at hg
+  · cases hg
+  · exact h id wk hg
+
+theorem positive_set {kw : AMap Nat WKey} (h : ∀ id wk, kw.get? id = some wk → 0 < wk.weight) (x : Nat) (v : WKey)
+    (hv : 0 < v.weight) : ∀ id wk, (kw.set x v).get? id = some wk → 0 < wk.weight := by
+  intro id wk hg
+  rw [AMap.get?_set] at hg
+  split at hg
+  · cases hg; exact hv
+  · exact h id wk hg
+
+theorem sumInv_wtrans {b b' : BState} (hs : SumInv b) (hp : PosInv b) (hi : IdInv b) (h : WTrans b b') :
+    SumInv b' := by
+  obtain ⟨h1, h2, h3, h4, h5, h6⟩ := hs
+  cases h
+  case evRemoveSome c e s victim wk hw hg =>
+    refine ⟨AMap.noDup_del h1 _, positive_del h2 _, ?_, ?_, h5, ?_⟩
+    · simp [pendingAdd, pendingSub, hw, sumW_del h1 hg] at h3 ⊢; omega
+    · simp [WPc.victim?]; exact h2 _ _ hg
+    · simp [WPc.space?]
+  case delKwSome id exp hh wk hw hg =>
+    refine ⟨AMap.noDup_del h1 _, positive_del h2 _, ?_, ?_, h5, ?_⟩
+    · simp [pendingAdd, pendingSub, hw, sumW_del h1 hg] at h3 ⊢; omega
+    · simp [WPc.victim?]; exact h2 _ _ hg
+    · simp [WPc.space?]
+  case insert c hw =>
+    have hcw : 0 < c.w := hp.wcmd c (by simp [WPc.cmd?, hw])
+    have hnone : b.g.adm.kw.get? c.id = none := hi.pendW c.id (by simp [WPc.pendId?, hw])
+    refine ⟨AMap.noDup_set h1 _ _, positive_set h2 _ _ hcw, ?_, ?_, h5, ?_⟩
+    · simp [pendingAdd, pendingSub, hw, sumW_set, sumW_del_none hnone] at h3 ⊢; omega
+    · simp [WPc.victim?]
+    · simp [WPc.space?]
+  case updateApplied id w hh wk hw hfree hg =>
+    have hcw : 0 < w := hp.wupd w (by simp [WPc.updW?, hw])
+    refine ⟨AMap.noDup_set h1 _ _, positive_set h2 _ _ hcw, ?_, ?_, h5, ?_⟩
+    · simp [pendingAdd, pendingSub, hw, finishCmd, sumW_set, sumW_del h1 hg] at h3 ⊢; omega
+    · simp [finishCmd, WPc.victim?]
+    · simp [finishCmd, WPc.space?]
+  all_goals constructor
+  all_goals (try simp only [finishCmd, rejectCmd, ttlPut, ttlDelete, applyEvict_adm])
+  all_goals (try assumption)
+  all_goals simp [pendingAdd, pendingSub, WPc.victim?, WPc.space?, *] at *
+  all_goals (try assumption)
+  all_goals omega
+
+theorem sumInv_strans {b b' : BState} (hs : SumInv b) (h : STrans b b') : SumInv b' := by
+  obtain ⟨h1, h2, h3, h4, h5, h6⟩ := hs
+  cases h
+  case kwRemoveSome now shard rest id wk hg hsw =>
+    refine ⟨AMap.noDup_del h1 _, positive_del h2 _, ?_, h4, ?_, h6⟩
+    · simp [pendingAdd, pendingSub, hsw, sumW_del h1 hg] at h3 ⊢; omega
+    · simp [SPc.victim?]; exact h2 _ _ hg
+  all_goals (try unfold sweepNext)
+  all_goals (try split)
+  all_goals constructor
+  all_goals (try simp only [applyEvict_adm])
+  all_goals (try assumption)
+  all_goals simp [pendingAdd, pendingSub, SPc.victim?, *] at *
+  all_goals (try assumption)
+  all_goals first | omega | (intro space hsp; have := h6 space hsp; omega)
+
+/-- whoever leaves the admission part and the positions of worker and sweeper alone keeps `SumInv` -/
+theorem SumInv.frame {b b' : BState} (hs : SumInv b) (hadm : b'.g.adm = b.g.adm) (hw : b'.w = b.w) (hsw : b'.sw = b.sw) :
+    SumInv b' := by
+  obtain ⟨h1, h2, h3, h4, h5, h6⟩ := hs
+  refine ⟨by rw [hadm]; exact h1, by rw [hadm]; exact h2, ?_, by rw [hw]; exact h4, by rw [hsw]; exact h5,
+    by rw [hw, hadm]; exact h6⟩
+  simp only [pendingAdd, pendingSub, hadm, hw, hsw] at h3 ⊢
+  exact h3
+
+theorem sumInv_init (cfg : Cfg) (now : Nat) (seeds : List Nat) (clients : Nat) :
+    SumInv (BState.init cfg now seeds clients) := by
+  refine ⟨AMap.noDup_nil, ?_, ?_, ?_, ?_, ?_⟩ <;>
+    simp [BState.init, State.init, pendingAdd, pendingSub, WPc.victim?, SPc.victim?, WPc.space?]
+
+/-! ## 8  `BInv`: assembly -/
+
+theorem binv_iff {b : BState} :
+    BInv b ↔ LockF b ∧ PosInv b ∧ IdInv b ∧ SumInv b ∧ b.g.adm.max = b.g.cfg.maxWeight := by
+  constructor
+  · intro h
+    refine ⟨LockF.of h.wuWorker h.wuSweeper h.wuClients h.ttlSweeper h.sweepEntry, ?_, ?_, ?_, h.maxFixed⟩
+    · refine ⟨h.cmdsPositive.1, h.cmdsPositive.2.1, h.cmdsPositive.2.2.1, ?_⟩
+      intro w hw
+      cases hb : b.w <;> simp [hb, WPc.updW?] at hw
+      subst hw
+      exact h.cmdsPositive.2.2.2 _ _ _ hb
+    · exact ⟨h.freshIds.1, h.freshIds.2.1, h.freshIds.2.2.1, h.freshIds.2.2.2.1, h.freshIds.2.2.2.2.1,
+        h.freshIds.2.2.2.2.2, h.addCharged⟩
+    · exact ⟨h.kwNoDup, h.positive, h.sum, h.pendingPos.2.2.1, h.pendingPos.2.2.2, h.staleSpace⟩
+  · intro ⟨hl, hp, hi, hs, hm⟩
+    refine ⟨hs.kwNoDup, hs.positive, hs.sum, ⟨?_, ?_, hs.wvictim, hs.svictim⟩, hi.addCharged, hs.stale, hl.wuWorker,
+      hl.wuSweeper, hl.wuClients, hl.ttlSweeper, hl.sweepEntry, ⟨hp.queue, hp.clients, hp.wcmd, ?_⟩,
+      ⟨hi.occLe, hi.freshLt, hi.pendQC, hi.pendW, hi.used, hi.kwLt⟩, hm⟩
+    · intro c hc; exact hp.wcmd c (by simp [hc, WPc.cmd?])
+    · intro c hc
+      exact ⟨hp.wcmd c (by simp [hc, WPc.cmd?]), hi.pendW c.id (by simp [hc, WPc.pendId?])⟩
+    · intro id w hh hc; exact hp.wupd w (by simp [hc, WPc.updW?])
+
+theorem binv_init (cfg : Cfg) (now : Nat) (seeds : List Nat) (clients : Nat) :
+    BInv (BState.init cfg now seeds clients) :=
+  binv_iff.mpr ⟨lockF_init cfg now seeds clients, posInv_init cfg now seeds clients, idInv_init cfg now seeds clients,
+    sumInv_init cfg now seeds clients, rfl⟩
+
+theorem binv_workerAct {b b' : BState} {o o' : Oracle} (hb : BInv b) (h : workerAct b o = .ok (b', o')) : BInv b' := by
+  obtain ⟨hl, hp, hi, hs, hm⟩ := binv_iff.mp hb
+  have ht := workerAct_trans h
+  exact binv_iff.mpr ⟨lockF_wtrans hl ht, posInv_wtrans hp ht, idInv_wtrans hi ht, sumInv_wtrans hs hp hi ht,
+    by rw [wtrans_max ht, wtrans_cfg ht]; exact hm⟩
+
+theorem binv_sweeperAct {b b' : BState} {v : Option Nat} (hb : BInv b) (h : sweeperAct b v = .ok b') : BInv b' := by
+  obtain ⟨hl, hp, hi, hs, hm⟩ := binv_iff.mp hb
+  have ht := sweeperAct_trans h
+  obtain ⟨_, _, _, _, hcfg, hmax⟩ := strans_frame ht
+  exact binv_iff.mpr ⟨lockF_strans hl ht, posInv_strans hp ht, idInv_strans hi ht, sumInv_strans hs ht,
+    by rw [hmax, hcfg]; exact hm⟩
+
+theorem binv_clientAct {b b' : BState} {i : Nat} {o o' : Oracle} (hb : BInv b) (h : clientAct b i o = .ok (b', o')) :
+    BInv b' := by
+  obtain ⟨hl, hp, hi, hs, hm⟩ := binv_iff.mp hb
+  have ht := clientAct_trans h
+  obtain ⟨hw, hsw, hwu, httl, hadm, hcfg⟩ := ctrans_frame ht
+  exact binv_iff.mpr ⟨hl.frame hw hsw hwu httl, posInv_ctrans hp ht, idInv_ctrans hi ht, hs.frame hadm hw hsw,
+    by rw [hadm, hcfg]; exact hm⟩
+
+theorem binv_issue {b b' : BState} {i : Nat} {r : Req} (hb : BInv b) (h : issue b i r = .ok b') : BInv b' := by
+  obtain ⟨hl, hp, hi, hs, hm⟩ := binv_iff.mp hb
+  have hp' := posInv_issue hp h
+  have hi' := idInv_issue hi h
+  unfold issue at h
+  split at h
+  · simp only [Except.ok.injEq] at h; subst h
+    exact binv_iff.mpr ⟨hl.frame rfl rfl rfl rfl, hp', hi', hs.frame rfl rfl rfl, hm⟩
+  · cases h
+
+theorem binv_consumer {b : BState} {g' : State} {out : Out} {o o' : Oracle} (hb : BInv b)
+    (h : consumerStep b.g o = .ok (g', out, o')) : BInv { b with g := g' } := by
+  obtain ⟨hl, hp, hi, hs, hm⟩ := binv_iff.mp hb
+  have hf := consumerStep_frame h
+  exact binv_iff.mpr ⟨hl.frame rfl rfl rfl rfl, hp.frame (by rw [hf]) rfl rfl,
+    hi.frame (by rw [hf]) rfl rfl rfl (by rw [hf]) (by rw [hf]) (by rw [hf]) (by rw [hf]),
+    hs.frame (by rw [hf]) rfl rfl, by rw [hf]; exact hm⟩
+
+theorem binv_advance {b : BState} (d : Nat) (hb : BInv b) : BInv { b with g := { b.g with now := b.g.now + d } } := by
+  obtain ⟨hl, hp, hi, hs, hm⟩ := binv_iff.mp hb
+  exact binv_iff.mpr ⟨hl.frame rfl rfl rfl rfl, hp.frame rfl rfl rfl, hi.frame rfl rfl rfl rfl rfl rfl rfl rfl,
+    hs.frame rfl rfl rfl, hm⟩
+
+/-- every atomic action of every thread preserves the invariant -/
+theorem binv_step {b b' : BState} {a : Act} {o o' : Oracle} (hb : BInv b) (h : stepB b a o = .ok (b', o')) :
+    BInv b' := by
+  cases a with
+  | issue i r =>
+    simp only [stepB] at h
+    split at h
+    · rename_i b1 hi
+      simp only [Except.ok.injEq, Prod.mk.injEq] at h; obtain ⟨rfl, rfl⟩ := h
+      exact binv_issue hb hi
+    · cases h
+  | client i => exact binv_clientAct hb h
+  | worker => exact binv_workerAct hb h
+  | sweeper v =>
+    simp only [stepB] at h
+    split at h
+    · rename_i b1 hs
+      simp only [Except.ok.injEq, Prod.mk.injEq] at h; obtain ⟨rfl, rfl⟩ := h
+      exact binv_sweeperAct hb hs
+    · cases h
+  | consumer =>
+    simp only [stepB] at h
+    split at h
+    · rename_i g' out o1 hc
+      simp only [Except.ok.injEq, Prod.mk.injEq] at h; obtain ⟨rfl, rfl⟩ := h
+      exact binv_consumer hb hc
+    · cases h
+  | advance d =>
+    simp only [stepB, Except.ok.injEq, Prod.mk.injEq] at h; obtain ⟨rfl, rfl⟩ := h
+    exact binv_advance d hb
+
+/-- the invariant holds at every reachable state of every interleaving -/
+theorem binv_reach {cfg : Cfg} {now : Nat} {seeds : List Nat} {clients : Nat} {b : BState}
+    (h : Reach cfg now seeds clients b) : BInv b := by
+  induction h with
+  | init => exact binv_init cfg now seeds clients
+  | step _ hs ih => exact binv_step ih hs
 
 end B
 end Cached
